@@ -205,3 +205,17 @@ def write_evidence_file(run: Run, root: str, unlisted, listed):
     with open(tmp, "w") as fh:
         json.dump(ev, fh, indent=1, default=str)
     os.replace(tmp, path)
+
+
+def subrun(module, pid: str, prog, tier: str, seed: int = 0) -> Run:
+    """run another property's rule module as a source of supporting obligations.  If that analysis gives up
+    (AnalysisError) after it has already established violations, those are returned; otherwise the error
+    propagates (the importing property cannot be decided either)."""
+    from .facts import AnalysisError
+    sub = Run(pid, tier, seed, quiet=True)
+    try:
+        module.check(sub, prog, tier)
+    except AnalysisError:
+        if not sub.violations():
+            raise
+    return sub
